@@ -1,9 +1,15 @@
 """Property -> verification units / harnesses. One entry per claimed property."""
 
+# Kani full-domain cross-checks of the std contracts assumed in prelude/std_specs.rs
+STD_SPECS = ["s01_u8_checked_shl", "s02_usize_leading_zeros", "s03_result_unwrap_or", "s04_u32_from_bool",
+             "s05_i32_try_from_u32", "s06_usize_try_from", "s07_usize_div_ceil_8"]
+
 PROPS = {
     "C13": {
         "units": ["bitstream"],
-        "kani": {"quick": [], "thorough": []},
+        "kani": {"quick": STD_SPECS + ["c13_read_cmr_complete", "c13_read_cmr_short_complete"],
+                 "thorough": ["c13_read_fail_entropy_complete", "c13_collect_bits_bounded20"]},
+        "cex": {"BitIter::byte_slice_window": "c13_byte_slice_window_exact_cex"},
         "level": "proof",
         "level_text": "Unbounded deductive proof (Verus) of functional contracts on the real BitIter / BitWriter / encode_natural code, "
                       "extracted from /repo on every run: every bit position, every cursor alignment, every natural number.",
